@@ -64,8 +64,11 @@ static struct kobj *as_key(const void *p) {
     if (((const char *)p - (const char *)b) % sizeof(struct kobj)) return NULL;
     return (struct kobj *)p;
 }
+static int g_null_v = -1; /* configuration: the value with this index is stored as a NULL pointer (a legal value), -1 = none */
+static void *vptr(int v) { return v == g_null_v ? NULL : (void *)&VO[v]; }
 static struct vobj *as_val(const void *p) {
     const struct vobj *b = &VO[0];
+    if (!p && g_null_v >= 0) return &VO[g_null_v];
     if ((const struct vobj *)p < b || (const struct vobj *)p >= b + NV) return NULL;
     if (((const char *)p - (const char *)b) % sizeof(struct vobj)) return NULL;
     return (struct vobj *)p;
